@@ -48,6 +48,13 @@ Inductive xres : Type :=
 
 Definition hd_stage (sts : list stage) : stage := match sts with s :: _ => s | [] => [] end.
 
+(* with the crc32 override the prompt ate the LF of the final CR LF: the CR left behind is dropped, the LF restored *)
+Definition post_out (ovr : option (list N)) (out : list N) : list N :=
+  match ovr with
+  | Some _ => (if is_suffix [CR] out then drop_last 1 out else out) ++ [LF]
+  | None => out
+  end.
+
 (* the common shape of UBootShell.exec and LinuxShell.exec: cmd is the escaped command line (bytes);
    ovr is the per-call prompt of the crc32 workaround (None otherwise) *)
 Definition exec_model (cmd : list N) (ovr : option (list N)) (sts : list stage) (c : chan)
@@ -60,11 +67,7 @@ Definition exec_model (cmd : list N) (ovr : option (list N)) (sts : list stage) 
   | (Ret _, c2) =>
       match read_until_prompt (option_map SLit ovr) None c2 with
       | (Ret out, c3) =>
-          (* the overridden prompt ate the LF of the final CR LF: the CR left behind is dropped, the LF restored *)
-          let out' := match ovr with
-                      | Some _ => (if is_suffix [CR] out then drop_last 1 out else out) ++ [LF]
-                      | None => out
-                      end in
+          let out' := post_out ovr out in
           let c4 := load (hd_stage sts1) c3 in
           let sts2 := tl sts1 in
           match sendline ECHO_Q true None c4 with
